@@ -48,7 +48,7 @@ package impl
 // Row k of the appended part is entry k of every array of the request (the
 // string column is checked for its row count only: its text lives in one shared
 // byte buffer addressed by positions, which is not followed here).
-//@ func NewSamplesInsertService$2 [C02]
+//@ func NewSamplesInsertService$2 [C01,C02]
 //@   requires shaped: samplesShaped(res)
 //@   requires existing-columns: !fresh(sType(res)) && !fresh(sFp(res)) && !fresh(sTs(res)) && !fresh(sStr(res)) && !fresh(sVal(res)) && !fresh(sStr(res).Data)
 //@   requires rectangular-batch: samplesRows(res, len(sFp(res).Data))
@@ -108,7 +108,7 @@ package impl
 //@ spec fn tFpRows(res []service.IColPoolRes, d *model.TimeSeriesData, base int, n int) bool = forall k int :: 0 <= k && k < n ==> tFp(res).Data[base + k] == d.MFingerprint[k]
 //@ spec fn tTypeRows(res []service.IColPoolRes, d *model.TimeSeriesData, base int, n int) bool = forall k int :: 0 <= k && k < n ==> tType(res).Data[base + k] == d.MType[k]
 
-//@ func NewTimeSeriesInsertService$2 [C02]
+//@ func NewTimeSeriesInsertService$2 [C01,C02]
 //@   requires shaped: seriesShaped(res)
 //@   requires existing-columns: !fresh(tType(res)) && !fresh(tDate(res)) && !fresh(tFp(res)) && !fresh(tLabels(res)) && !fresh(tLabels(res).Data)
 //@   requires rectangular-batch: seriesRows(res, len(tDate(res).Data))
@@ -147,7 +147,7 @@ package impl
 //@ spec fn mFpRows(res []service.IColPoolRes, d *model.TimeSamplesData, base int, n int) bool = forall k int :: 0 <= k && k < n ==> mFp(res).Data[base + k] == d.MFingerprint[k]
 //@ spec fn mValRows(res []service.IColPoolRes, d *model.TimeSamplesData, base int, n int) bool = forall k int :: 0 <= k && k < n ==> mVal(res).Data[base + k] == d.MValue[k]
 
-//@ func NewMetricsInsertService$2 [C02]
+//@ func NewMetricsInsertService$2 [C01,C02]
 //@   requires shaped: metricsShaped(res)
 //@   requires existing-columns: !fresh(mType(res)) && !fresh(mFp(res)) && !fresh(mTs(res)) && !fresh(mVal(res))
 //@   requires rectangular-batch: metricsRows(res, len(mFp(res).Data))
@@ -206,7 +206,7 @@ package impl
 //@ spec fn rectTracesReq(d *model.TempoSamples) bool = len(d.MTraceId) == len(d.MSpanId) && len(d.MSpanId) == len(d.MTimestampNs) && len(d.MTimestampNs) == len(d.MDurationNs) && len(d.MDurationNs) == len(d.MParentId) && len(d.MParentId) == len(d.MName) && len(d.MName) == len(d.MServiceName) && len(d.MServiceName) == len(d.MPayloadType) && len(d.MPayloadType) == len(d.MPayload)
 //@ spec fn idWidths(d *model.TempoSamples) bool = (forall k int :: 0 <= k && k < len(d.MTraceId) ==> len(d.MTraceId[k]) == 16) && (forall k int :: 0 <= k && k < len(d.MSpanId) ==> len(d.MSpanId[k]) == 8)
 
-//@ func NewTempoSamplesInsertService$2 [C02,C05]
+//@ func NewTempoSamplesInsertService$2 [C01,C02,C05]
 //@   requires shaped: tracesShaped(res) && tracesDistinct(res)
 //@   requires rectangular-batch: tracesRows(res, len(i64Col(res[4]).Data))
 //@   requires rectangular-request: typeis(v2, "*model.TempoSamples") ==> unbox(v2, "*model.TempoSamples") != nil && !fresh(unbox(v2, "*model.TempoSamples")) && rectTracesReq(unbox(v2, "*model.TempoSamples")) && idWidths(unbox(v2, "*model.TempoSamples"))
@@ -229,7 +229,7 @@ package impl
 //@ spec fn rectTagsReq(d *model.TempoTag) bool = len(d.MTraceId) == len(d.MSpanId) && len(d.MSpanId) == len(d.MTimestampNs) && len(d.MTimestampNs) == len(d.MDurationNs) && len(d.MDurationNs) == len(d.MDate) && len(d.MDate) == len(d.MKey) && len(d.MKey) == len(d.MVal)
 //@ spec fn tagIdWidths(d *model.TempoTag) bool = (forall k int :: 0 <= k && k < len(d.MTraceId) ==> len(d.MTraceId[k]) == 16) && (forall k int :: 0 <= k && k < len(d.MSpanId) ==> len(d.MSpanId[k]) == 8)
 
-//@ func NewTempoTagsInsertService$2 [C02,C05]
+//@ func NewTempoTagsInsertService$2 [C01,C02,C05]
 //@   requires shaped: tagsShaped(res) && tagsDistinct(res)
 //@   requires rectangular-batch: tagsRows(res, len(i64Col(res[5]).Data))
 //@   requires rectangular-request: typeis(v2, "*model.TempoTag") ==> unbox(v2, "*model.TempoTag") != nil && !fresh(unbox(v2, "*model.TempoTag")) && rectTagsReq(unbox(v2, "*model.TempoTag")) && tagIdWidths(unbox(v2, "*model.TempoTag"))
